@@ -167,6 +167,56 @@ class Graph(Part):
         return out
 
 
+def set_partitions(items):
+    """All set partitions of a list (Bell(6) = 203, Bell(7) = 877)."""
+    if not items:
+        yield []
+        return
+    first, rest = items[0], items[1:]
+    for part in set_partitions(rest):
+        for k in range(len(part)):
+            yield part[:k] + [[first] + part[k]] + part[k + 1:]
+        yield [[first]] + part
+
+
+class Partitions(Graph):
+    """Larger bus counts through a structured family: every set partition of the buses is realised as islands (a path through
+    each block in numbering order, or a star from its lowest bus), so that many islands with interleaved numbering occur."""
+    name = 'partitions'
+
+    def describe(self, tier):
+        ns = self.sizes(tier)
+        return (f'n in {ns} buses: every set partition of the buses (Bell numbers 203 / 877) realised as islands by a path or a '
+                f'star inside each block x all 2^3 slack enable patterns (slacks on buses 1, 2 and n); same oracle as part graph')
+
+    def sizes(self, tier):
+        return [6] if tier == 'quick' else [6, 7]
+
+    def cases(self, tier):
+        out = []
+        for n in self.sizes(tier):
+            pos = {}
+            k = 0
+            for i, j in itertools.combinations(range(n), 2):
+                pos[(i, j)] = k
+                k += 1
+            seen = set()
+            for part in set_partitions(list(range(n))):
+                for shape in ('path', 'star'):
+                    pat = 0
+                    for block in part:
+                        b = sorted(block)
+                        edges = list(zip(b[:-1], b[1:])) if shape == 'path' else [(b[0], x) for x in b[1:]]
+                        for e in edges:
+                            pat |= 1 << pos[e]
+                    if pat in seen:
+                        continue
+                    seen.add(pat)
+                    for sl in range(8):
+                        out.append([n, pat, sl])
+        return out
+
+
 class PFlowIsolated(Part):
     """Isolated buses (with load on them) are neutralised: the energised part still solves."""
     name = 'pflow'
@@ -449,7 +499,7 @@ class Events(Part):
 
 
 def parts(tier):
-    return [Graph(tier), PFlowIsolated(), BusOff(), Events()]
+    return [Graph(tier), Partitions(tier), PFlowIsolated(), BusOff(), Events()]
 
 
 def run(run, only=None):
